@@ -139,23 +139,13 @@ def stepX (s : S) : OpX → S × Except ErrX Unit
         if dead.any (fun j => j ≥ s1.items.length) then (s1, .error (.base .indexError))
         else (autoCommit { s1 with items := eraseAll s1.items dead, dirty := true }, .ok ())
 
-/-- `stepX` for a configuration parsed with `factory=True`.  There `ConfigList.insert` builds the
-new line with `config_line_factory(line=…, syntax=…)`, i.e. without `all_lines`, which that
-function rejects (`InvalidParameters`): `insert` — and `append_to_family`, which inserts through
-it once its own checks have passed — never change the list (known finding F10e; the other
-operations hand `all_lines` over and work as without the factory).  After an index that is not an
-`int` (`ValueError`) and before a value that is no text (`TypeError`), as in the code. -/
-def stepF (factory : Bool) (s : S) (op : OpX) : S × Except ErrX Unit :=
-  if !factory then stepX s op else
-  match op with
-  | .base (.insert _ _) => (s, .error (.base .invalidParameters))
-  | .insertA (some _) (.str _) => (s, .error (.base .invalidParameters))
-  | .insertA (some _) (.line _) => (s, .error (.base .invalidParameters))
-  | .base (.appendToFamily _ _ _ _) | .appendToFamilyL _ _ _ _ =>
-    match (stepX s op).2 with
-    | .ok _ => (s, .error (.base .invalidParameters))
-    | .error e => (s, .error e)
-  | _ => stepX s op
+/-- `stepX` for a configuration parsed with `factory=True` (`factory = false`: without).  The typed-model factory
+chooses the CLASS of a new line object; every editing call hands it `all_lines` and the line text and then works on
+the object exactly as without the factory, so the flag changes no outcome.  (Before the repair `fix: ConfigList.insert()
+passes all_lines to config_line_factory() under factory=True`, `ConfigList.insert` built the new line with
+`config_line_factory(line=…, syntax=…)`, i.e. without `all_lines`, which that function rejects: `insert` -- and
+`append_to_family`, which inserts through it -- always raised `InvalidParameters` under the factory: finding F10e.) -/
+def stepF (_factory : Bool) (s : S) (op : OpX) : S × Except ErrX Unit := stepX s op
 
 def runX (factory : Bool) (s : S) : List OpX → S
   | [] => s
